@@ -14,12 +14,43 @@ func pipeTier(c *Check) (K0, K1, K2 int, vers string) {
 	return
 }
 
+// corpusShapes: every corpus program (test snippets + grammar sentences) as written
+// and, for the programs the baseline accepts, with symbolic trivia in every n-th gap.
+func corpusShapes(c *Check, entry string, every int, onlyOK bool, fuel int64) error {
+	rich := c.Tier == "thorough"
+	for _, ver := range []string{"7.4", "5.6"} {
+		needs, err := c.wholeJobs(entry, ver, fuel, onlyOK)
+		if err != nil {
+			return err
+		}
+		c.ExploreNeeds(needs, nil)
+		if every > 0 {
+			needs, err = c.triviaJobs(entry, ver, every, rich, fuel, "")
+			if err != nil {
+				return err
+			}
+			c.ExploreNeeds(needs, nil)
+		}
+	}
+	c.ExploreNeeds(longShapes(entry, fuel), nil)
+	c.Bounds = append(c.Bounds, corpusBound(every, rich), longBound)
+	return nil
+}
+
+func corpusBound(every int, rich bool) string {
+	s := "program shapes: the committed corpus (snippets of the repository's own tests + one sentence per production, per subset of optional right-hand-side symbols and per parent/child production pair of php5.y and php7.y) under 7.4 and 5.6, as written"
+	if every > 0 {
+		s += bound("; test snippets and production/optional sentences additionally with symbolic trivia in every %d-th inter-token gap (white space 1..2 bytes of every newline style, /*..*/, #..\\n%s), one gap at a time", every, map[bool]string{true: ", //..\\r\\n, /** */, 3-byte white space", false: ""}[rich])
+	}
+	return s
+}
+
 func runC02(c *Check) error {
 	K0, K1, K2, vers := pipeTier(c)
 	c.Bounds = append(c.Bounds, shortBounds(K0, K1, K2, vers)...)
 	c.Assumptions = append(c.Assumptions, stdAssumptions...)
 	c.ExploreNeeds(shortShapes("H_C02", K0, K1, K2, vers, 900_000), nil)
-	return nil
+	return corpusShapes(c, "H_C02", tierEvery(c, 6, 2), true, 3_000_000)
 }
 
 func runC04(c *Check) error {
@@ -27,7 +58,7 @@ func runC04(c *Check) error {
 	c.Bounds = append(c.Bounds, shortBounds(K0, K1, K2, vers)...)
 	c.Assumptions = append(c.Assumptions, stdAssumptions...)
 	c.ExploreNeeds(shortShapes("H_C04", K0, K1, K2, vers, 900_000), nil)
-	return nil
+	return corpusShapes(c, "H_C04", tierEvery(c, 6, 2), false, 3_000_000)
 }
 
 func runC06(c *Check) error {
@@ -35,5 +66,5 @@ func runC06(c *Check) error {
 	c.Bounds = append(c.Bounds, shortBounds(K0, K1, K2, vers)...)
 	c.Assumptions = append(c.Assumptions, stdAssumptions...)
 	c.ExploreNeeds(shortShapes("H_C06", K0, K1, K2, vers, 1_500_000), nil)
-	return nil
+	return corpusShapes(c, "H_C06", 0, false, 6_000_000)
 }
